@@ -198,7 +198,27 @@ func (fr *Frame) step(st *State, ins ssa.Instruction) {
 			return
 		}
 		unsup("go statement in %s", fr.fn.Name())
-	case *ssa.Send, *ssa.Select, *ssa.MakeChan:
+	case *ssa.MakeChan:
+		if tc := fr.topContract(); tc == nil || tc.Options["channels-as-log"] == "" {
+			unsup("channel operation in %s", fr.fn.Name())
+		}
+		// "option channels-as-log": a channel is an opaque object; a send and a close are events that cuts can
+		// anchor on ("call chansend": callarg0 the channel, callarg1 the value; "call close"). Blocking, buffering
+		// and receives are not modelled: only for contracts about WHAT a function sends and closes.
+		fr.v.assume("channels are opaque objects whose sends and closes are events (option channels-as-log): blocking, buffering and the receiving side are not modelled")
+		env[i] = &PtrV{Obj: fr.v.newObject(fr.fn.Name()+".chan", i.Type(), false)}
+	case *ssa.Send:
+		if tc := fr.topContract(); tc == nil || tc.Options["channels-as-log"] == "" {
+			unsup("channel operation in %s", fr.fn.Name())
+		}
+		if fr.anchorsOn() {
+			fr.v.lastCallQual = ""
+			st.srcVar["callarg0"], st.srcAdr["callarg0"] = fr.get(st, i.Chan), false
+			st.srcVar["callarg1"], st.srcAdr["callarg1"] = fr.get(st, i.X), false
+			fr.anchor(st, "beforecall", "chansend", -1)
+			fr.anchor(st, "call", "chansend", -1)
+		}
+	case *ssa.Select:
 		unsup("channel operation in %s", fr.fn.Name())
 	case *ssa.MakeMap:
 		env[i] = fr.makeMap(st, i)
@@ -776,6 +796,11 @@ func (fr *Frame) convert(st *State, i *ssa.Convert) Value {
 		}
 	}
 	if isUnsafePointer(dst) || isUnsafePointer(src) {
+		if tc := fr.topContract(); tc != nil && tc.Options["unsafe-views"] != "" {
+			if pv, isP := x.(*PtrV); isP {
+				return pv // the pointer keeps its target; only unsafe.Slice may be applied to it (a view with arbitrary contents)
+			}
+		}
 		unsup("unsafe pointer conversion")
 	}
 	unsup("convert %s -> %s", src, dst)
